@@ -157,6 +157,26 @@ func checkReadBack(c *mon.Case, st *store.Store, root cid.Cid, content []byte, w
 				cmp("io.Copy", bb.Bytes(), err)
 			}
 		})
+		c.Guard("rewind and re-read", func() {
+			// the same reader, used twice: stream to the end, rewind, stream again; peek, rewind, read all
+			if r := open(); r != nil {
+				first, err := io.ReadAll(r)
+				cmp("ReadAll#1", first, err)
+				if _, err := r.Seek(0, io.SeekStart); err != nil {
+					c.Violation("C01|rewind", "[%s] Seek(0,Start) after reading to the end: %v", name, err)
+					return
+				}
+				second, err := io.ReadAll(r)
+				cmp("ReadAll#2-after-rewind", second, err)
+				if _, err := r.Seek(0, io.SeekStart); err == nil && len(content) > 3 {
+					peek := make([]byte, len(content)/3)
+					io.ReadFull(r, peek)
+					r.Seek(0, io.SeekStart)
+					third, err := io.ReadAll(r)
+					cmp("ReadAll#3-after-peek", third, err)
+				}
+			}
+		})
 		c.Guard("Seek(0,End)", func() {
 			if r := open(); r != nil {
 				end, err := r.Seek(0, io.SeekEnd)
